@@ -367,6 +367,10 @@ func dirMissingOnPath(p *Path, configDir string) (missing, tested bool) {
 			if !taken {
 				tested, missing = true, false
 			}
+		case cnd.Op == "binop" && cnd.Aux == "==" && cnd.Args[1].IsNil():
+			if taken {
+				tested, missing = true, false
+			}
 		}
 	}
 	return
